@@ -106,14 +106,6 @@ theorem expectDot_dot (T : Tables) (hT : TablesOK T) (e : End) (r : List Nat) :
     expectDot T e false (0x20 :: 0x2e :: r) = .ok () r := by
   simp [expectDot, isSpace, hT.space_sp]
 
-theorem nodeW_head (T : Tables) (ascii : Bool) (label : β → List Nat) (urlOk : List Nat → Bool)
-    (t : Term β) (ht : WFNode urlOk t) :
-    ∃ c r, nodeW T ascii label t = c :: r ∧ (c = 0x3c ∨ c = 0x5f) := by
-  cases t with
-  | iri v => exact ⟨0x3c, _, rfl, Or.inl rfl⟩
-  | bnode b => exact ⟨0x5f, _, rfl, Or.inr rfl⟩
-  | lit l d t => exact ht.elim
-
 theorem afterObject_graph (T : Tables) (hT : TablesOK T) (e : End) (c : Nat) (r : List Nat)
     (hc : c = 0x3c ∨ c = 0x5f) :
     afterObject T e false (0x20 :: c :: r) = .ok (some (c :: r)) (c :: r) := by
